@@ -36,9 +36,9 @@ P2(k) == PowerOfTwo(k)
 P2m1(k) == Sub(PowerOfTwo(k), One)
 Mags == << <<>>, One, FromNat(1000), P2m1(32), P2(32), Add(P2(32), FromNat(12345)), P2m1(64), P2(64), P2m1(128), P2(128),
            Add(P2(192), FromNat(12345)), P2m1(300) >>
-\* an n-digit mantissa in radix r by pattern: 1 all (r-1), 2 leading 1 and trailing 1, 3 leading 1 then zeros, 4 alternating
+\* an n-digit mantissa in radix r by pattern: 0 all zero, 1 all (r-1), 2 leading 1 and trailing 1, 3 leading 1 then zeros, 4 alternating
 MantDigits(n, r, pat) ==
-  [i \in 1..n |-> IF pat = 1 THEN r - 1
+  [i \in 1..n |-> IF pat = 0 THEN 0 ELSE IF pat = 1 THEN r - 1
                   ELSE IF pat = 2 THEN (IF i = 1 \/ i = n THEN 1 ELSE 0)
                   ELSE IF pat = 3 THEN (IF i = 1 THEN 1 ELSE 0)
                   ELSE (IF i % 2 = 1 THEN (IF r = 2 THEN 1 ELSE IF r = 10 THEN 4 ELSE 10) ELSE (IF r = 2 THEN 0 ELSE 5))]
@@ -123,7 +123,8 @@ Mutate(t, m) ==
        [] m = 9 -> t \o <<Tok("slash", <<47>>), Tok("digits", <<48>>)>>                       \* ... / 0
        [] m = 10 -> IF firstDigits > 1 /\ t[firstDigits - 1].k = "prefix" THEN repl(firstDigits - 1, Tok("prefix", <<48, 98>>))
                     ELSE ins(firstDigits - 1, Tok("prefix", <<48, 120>>))                     \* wrong or misplaced prefix
-       [] m = 11 -> t \o <<Tok("expmark", <<101>>)>>                                          \* exponent mark without digits
+       \* exponent mark without digits (not behind hexadecimal digits, where `e` would read as one more digit)
+       [] m = 11 -> IF \E i \in 1..n : t[i].k = "prefix" THEN t ELSE t \o <<Tok("expmark", <<101>>)>>
        [] m = 12 -> t \o <<Tok("expmark", <<112>>), Tok("digits", <<51>>)>>                   \* a second / foreign exponent
        [] m = 13 -> t \o <<Tok("digits", <<32, 55>>)>>                                        \* a second number
        [] m = 14 -> <<Tok("tilde", <<126>>)>> \o t                                            \* `~` where it does not belong / doubled
@@ -141,11 +142,11 @@ Init == phase = "pick" /\ fam \in Fams /\ mi \in 1..NMacros(fam) /\ par = <<>>
 
 Params(f) ==
   IF f = "int" THEN {<<s, g, ng, pt, up>> : s \in 1..Len(IntStyles), g \in 1..Len(Mags), ng \in 0..1, pt \in 1..3, up \in 0..1}
-  ELSE IF f = "bin" THEN {<<n, mp, ld, fr, ex, ng, pt>> : n \in {1, 5, 32, 33, 64, 65, 128, 129, 200}, mp \in 1..4, ld \in {0, 3},
+  ELSE IF f = "bin" THEN {<<n, mp, ld, fr, ex, ng, pt>> : n \in {1, 5, 32, 33, 64, 65, 128, 129, 200}, mp \in 0..4, ld \in {0, 3},
                            fr \in {-1, 0, 2, 1000}, ex \in 1..Len(BinExps), ng \in 0..1, pt \in {1, 4}}
-  ELSE IF f = "hex" THEN {<<sh, n, mp, ld, fr, ex, ng, pt>> : sh \in 1..3, n \in {1, 8, 9, 16, 17, 32, 33, 50}, mp \in 1..4, ld \in {0, 2},
+  ELSE IF f = "hex" THEN {<<sh, n, mp, ld, fr, ex, ng, pt>> : sh \in 1..3, n \in {1, 8, 9, 16, 17, 32, 33, 50}, mp \in 0..4, ld \in {0, 2},
                            fr \in {0, 1, 1000}, ex \in 1..Len(HexExps), ng \in 0..1, pt \in {1, 4}}
-  ELSE IF f = "dec" THEN {<<n, mp, ld, fr, ex, ng, pt>> : n \in {1, 9, 10, 19, 20, 39, 40, 60}, mp \in 1..6, ld \in {0, 2},
+  ELSE IF f = "dec" THEN {<<n, mp, ld, fr, ex, ng, pt>> : n \in {1, 9, 10, 19, 20, 39, 40, 60}, mp \in 0..6, ld \in {0, 2},
                            fr \in {-1, 0, 3, 1000}, ex \in 1..Len(DecExps), ng \in 0..1, pt \in {1, 2}}
   ELSE {<<s, nm, dm, rl, ng, pt>> : s \in 1..5, nm \in 1..Len(RatMagsN), dm \in 1..Len(RatMagsD), rl \in 0..1, ng \in 0..1, pt \in 1..2}
 \* `fr` = 1000 stands for "all digits behind the point"
@@ -159,13 +160,16 @@ ToksOf(f, p) ==
 \* shapes the Rust lexer or the grammar cannot express (not literals of the language at all): skipped
 Sensible(f, p) ==
   IF f = "int" THEN (p[3] = 0 \/ MSigned(MacroOf(f, mi))) /\ (p[5] = 0 \/ IntStyles[p[1]] \in {-16, 16, 32, 36})
-  ELSE IF f = "bin" THEN /\ (p[4] >= 0 \/ p[5] # 3)                      \* lower-case `b` only behind a point (`0b5` is a Rust prefix)
+  ELSE IF f = "bin" THEN /\ (p[2] # 0 \/ (p[1] <= 5 /\ p[6] = 0))
+                         /\ (p[4] >= 0 \/ p[5] # 3)                      \* lower-case `b` only behind a point (`0b5` is a Rust prefix)
                          /\ (p[4] <= p[1] + p[3])
                          /\ (p[7] = 1 \/ p[4] # 1000)
-  ELSE IF f = "hex" THEN /\ (p[1] # 1 \/ p[5] = 0)                       \* shape 1 has no point
+  ELSE IF f = "hex" THEN /\ (p[3] # 0 \/ (p[2] <= 8 /\ p[7] = 0))
+                         /\ (p[1] # 1 \/ p[5] = 0)                       \* shape 1 has no point
                          /\ (p[1] = 1 \/ p[8] = 1)
                          /\ (p[1] # 3 \/ (p[5] > 0 /\ Fr(p[5], p[2] + p[4]) < p[2] + p[4]))  \* shape 3 needs both parts
-  ELSE IF f = "dec" THEN /\ (p[2] <= 4 \/ p[1] = 10)
+  ELSE IF f = "dec" THEN /\ (p[2] # 0 \/ (p[1] <= 9 /\ p[6] = 0))
+                         /\ (p[2] <= 4 \/ p[1] = 10)
                          /\ (p[4] <= p[1] + p[3])
                          /\ (p[7] = 1 \/ p[4] # 1000)
   ELSE (p[2] # 1 \/ p[5] = 0) /\ (p[1] < 4 \/ p[3] # 1)                 \* no "-0"; `base N` only with a denominator
@@ -174,10 +178,10 @@ Hash(p) == FoldLeftDomain(LAMBDA acc, i : (acc * 31 + p[i] + 7) % 100003, Seed +
 KeepOf(f) == Keep * (IF f = "int" THEN 1 ELSE IF f = "bin" THEN 5 ELSE IF f = "hex" THEN 8 ELSE IF f = "dec" THEN 7 ELSE 3)
 Pinned(f, p) ==
   \/ f = "int" /\ p \in {<<1, 4, 0, 1, 0>>, <<1, 5, 0, 1, 0>>, <<4, 9, 0, 1, 0>>, <<4, 10, 0, 1, 0>>, <<10, 11, 1, 2, 0>>, <<1, 1, 0, 1, 0>>}
-  \/ f = "dec" /\ p \in {<<10, 5, 0, 3, 1, 0, 1>>, <<10, 6, 0, 3, 1, 0, 1>>, <<1, 3, 2, 0, 1, 0, 1>>}
-  \/ f = "bin" /\ p \in {<<32, 1, 0, -1, 1, 0, 1>>, <<33, 1, 0, -1, 1, 0, 1>>}
+  \/ f = "dec" /\ p \in {<<10, 5, 0, 3, 1, 0, 1>>, <<10, 6, 0, 3, 1, 0, 1>>, <<1, 3, 2, 0, 1, 0, 1>>, <<1, 0, 2, 2, 1, 0, 1>>}
+  \/ f = "bin" /\ p \in {<<32, 1, 0, -1, 1, 0, 1>>, <<33, 1, 0, -1, 1, 0, 1>>, <<1, 0, 0, -1, 1, 0, 1>>, <<5, 0, 0, 2, 1, 0, 1>>}
   \/ f = "hex" /\ p \in {<<1, 8, 1, 0, 0, 4, 1, 1>>, <<2, 9, 2, 0, 1, 2, 1, 1>>}
-  \/ f = "rat" /\ p \in {<<1, 4, 4, 0, 0, 1>>, <<1, 3, 3, 1, 1, 1>>, <<3, 6, 7, 0, 0, 1>>}
+  \/ f = "rat" /\ p \in {<<1, 4, 4, 0, 0, 1>>, <<1, 3, 3, 1, 1, 1>>, <<3, 6, 7, 0, 0, 1>>, <<1, 3, 8, 0, 0, 1>>, <<2, 9, 9, 1, 0, 1>>}
 
 Pick == /\ phase = "pick"
         /\ par' \in Params(fam)
